@@ -44,7 +44,7 @@ mod verif_kani_cv {
     #[kani::proof]
     fn arith_uint_sub() { let a: u64 = kani::any(); let b: u64 = kani::any(); let r = CelValue::UInt(a) - CelValue::UInt(b); exact_u(r, a as i128 - b as i128); }
     #[kani::proof]
-    fn arith_uint_mul() { let a: u64 = kani::any(); let b: u64 = kani::any(); let r = CelValue::UInt(a) * CelValue::UInt(b); exact_u(r, a as i128 * b as i128); }
+    fn arith_uint_mul() { let a: u64 = kani::any(); let b: u64 = kani::any(); let r = CelValue::UInt(a) * CelValue::UInt(b); let p = (a as u128) * (b as u128); if p <= u64::MAX as u128 { exact_u(r, p as i128); } else { is_error(r); } }
     #[kani::proof]
     fn arith_uint_div() { let a: u64 = kani::any(); let b: u64 = kani::any(); let r = CelValue::UInt(a) / CelValue::UInt(b); if b == 0 { is_error(r); } else { exact_u(r, a as i128 / b as i128); } }
     #[kani::proof]
